@@ -51,9 +51,10 @@ def snap(x, depth=0):
         extra = ()
         if isinstance(x, t.UniformTime):
             extra = tuple((a, snap(np.asarray(getattr(x, a, None)))) for a in ('t0', 'sampling_interval', 'duration')) + \
-                    (('rate', repr(float(getattr(x, 'sampling_rate', 0)))), ('unit', x.time_unit))
+                    (('rate', repr(float(getattr(x, 'sampling_rate', 0)))), ('unit', x.time_unit),
+                     ('factor', repr(getattr(x, '_conversion_factor', None))))
         elif isinstance(x, t.TimeArray):
-            extra = (('unit', x.time_unit),)
+            extra = (('unit', x.time_unit), ('factor', repr(getattr(x, '_conversion_factor', None))))
         strides = tuple(st if n > 1 else 0 for st, n in zip(x.strides, x.shape))
         return ('A', str(x.dtype), x.shape, strides, np.asarray(x).tobytes() if x.dtype != object else repr(x.tolist()), extra)
     if isinstance(x, t.Epochs):
@@ -682,6 +683,124 @@ def copies(tier, seed):
     return fails
 
 
+def mutate_axis(c):
+    """every in-place change a holder of the axis `c` can make (exceptions are irrelevant here)"""
+    t = ts()
+    acts = [lambda: operator.iadd(c, 5), lambda: operator.iadd(c, np.arange(len(c))), lambda: operator.imul(c, 2),
+            lambda: operator.isub(c, t.TimeArray(1, time_unit='s'))]
+    for a in ('t0', 'sampling_interval', 'duration'):
+        acts.append(lambda a=a: operator.iadd(getattr(c, a), 7))
+    for f in acts:
+        try:
+            f()
+        except Exception:  # noqa
+            pass
+
+
+def axis_copy_forms(tier, seed):
+    """every way to obtain a copy of an axis: identity of attribute objects, then all in-place
+    changes on the copy; the original must stay bit for bit (samples, attributes, unit)"""
+    import copy as cp, pickle
+    t = ts()
+    fails = []
+    forms = [('copy', lambda u: u.copy()), ('copy.copy', lambda u: cp.copy(u)), ('copy.deepcopy', lambda u: cp.deepcopy(u)),
+             ('fancy-index', lambda u: u[list(range(len(u)))]), ('plus-zero', lambda u: u + 0),
+             ('np.array-subok', lambda u: np.array(u, subok=True)), ('pickle', lambda u: pickle.loads(pickle.dumps(u))),
+             ('ctor', lambda u: t.UniformTime(u)), ('bool-index', lambda u: u[np.ones(len(u), dtype=bool)])]
+    for unit in ('s', 'ms'):
+        for nm, mk in forms:
+            u = t.UniformTime(t0=3, length=4, sampling_interval=2, time_unit=unit)
+            try:
+                c = mk(u)
+            except Exception:  # noqa
+                continue
+            if not isinstance(c, np.ndarray):
+                continue
+            shared = [a for a in ('t0', 'sampling_interval', 'duration') if getattr(c, a, None) is not None and getattr(c, a, None) is getattr(u, a)]
+            if np.shares_memory(np.asarray(c), np.asarray(u)):
+                shared.append('samples')
+            if shared:
+                fails.append(Failure('axis-%s/shared-%s' % (nm, '+'.join(shared)), 'the copy of a UniformTime made by %s shares %s with the original' % (nm, shared), {'what': 'copies'}))
+            before = snap(u)
+            mutate_axis(c)
+            if snap(u) != before:
+                fails.append(Failure('axis-%s/original-changed' % nm, 'in-place operations on the copy of a UniformTime made by %s changed the original' % nm, {'what': 'copies'}))
+    return fails
+
+
+def series_share_nothing(tier, seed):
+    """results of TimeSeries copy / arithmetic share no mutable object with their operands, in both
+    lazily-initialised states (`.time` read before or not): every mutable part of the RESULT is
+    changed in place, the operands are snapshotted"""
+    t = ts()
+    fails = []
+    producers = [('copy', lambda x, a: x.copy())]
+    for nm, f in (('add', operator.add), ('sub', operator.sub), ('mul', operator.mul), ('truediv', operator.truediv)):
+        producers.append((nm + '-array', lambda x, a, f=f: f(x, a)))
+        producers.append((nm + '-scalar', lambda x, a, f=f: f(x, 2.0)))
+        producers.append((nm + '-series', lambda x, a, f=f: f(x, t.TimeSeries(a.copy(), sampling_interval=0.5, t0=1.0))))
+    for lazy in (False, True):
+        for nm, mk in producers:
+            def fresh():
+                x = t.TimeSeries(np.arange(1., 13.).reshape(3, 4), sampling_interval=0.5, t0=1.0, time_unit='s')
+                x.metadata['name'] = 'x'
+                x.metadata['tags'] = [1, 2]
+                return x
+            x = fresh()
+            a = np.arange(1., 5.)
+            if lazy:
+                _ = x.time
+            want_time = snap(fresh().time)
+            bx, ba = snap(x), snap(a)
+            try:
+                r = mk(x, a)
+            except Exception:  # noqa
+                continue
+            parts = []
+            if r.data is x.data or np.shares_memory(r.data, x.data):
+                parts.append('data')
+            if 'time' in r.__dict__ and 'time' in x.__dict__ and r.__dict__['time'] is x.__dict__['time']:
+                parts.append('time')
+            for at in ('t0', 'sampling_interval', 'duration'):
+                if isinstance(getattr(r, at, None), np.ndarray) and getattr(r, at) is getattr(x, at, None):
+                    parts.append(at)
+            if r.metadata is x.metadata:
+                parts.append('metadata')
+            # change every mutable part of the result in place
+            acts = [lambda: r.data.__setitem__((0, 0), -7.0), lambda: r.data.__imul__(3), lambda: operator.iadd(r, 1.5),
+                    lambda: operator.iadd(r.time, 5), lambda: operator.imul(r.time, 2), lambda: operator.iadd(r.time.t0, 3),
+                    lambda: operator.iadd(r.t0, 11), lambda: operator.iadd(r.sampling_interval, 13),
+                    lambda: r.metadata.__setitem__('name', 'y'), lambda: r.metadata['tags'].append(3)]
+            for f in acts:
+                try:
+                    f()
+                except Exception:  # noqa
+                    pass
+            changed = []
+            ax_ = snap(x)
+            if ax_ != bx:
+                d0, d1 = dict(bx[1]), dict(ax_[1])
+                changed += ['operand.' + k for k in sorted(set(d0) | set(d1)) if d0.get(k) != d1.get(k)]
+            if snap(a) != ba:
+                changed.append('array-operand')
+            if snap(x.time) != want_time:
+                changed.append('operand.time')
+            try:
+                if float(x.at(t.TimeArray(1.5))[0]) != 2.0:
+                    changed.append('operand.at')
+            except Exception:  # noqa
+                changed.append('operand.at-raises')
+            state = 'time-read' if lazy else 'time-unread'
+            if changed:
+                fails.append(Failure('series-%s/%s/result-mutation-reaches-%s' % (nm, state, '+'.join(changed)),
+                                     'changing the result of TimeSeries %s in place (with the operand\'s .time %s before) changed %s; shared objects: %s'
+                                     % (nm, 'read' if lazy else 'not read', changed, parts or 'none by identity'), {'what': 'copies'}))
+            elif parts:
+                fails.append(Failure('series-%s/%s/shares-%s' % (nm, state, '+'.join(parts)),
+                                     'the result of TimeSeries %s shares %s with its operand' % (nm, parts), {'what': 'copies'}))
+    return fails
+
+
 def unmodelled_operands(tier, seed):
     """operand kinds the Lean model does not cover (int32 / float64 arrays, float lists, numpy
     scalars): snapshots around every operator, element assignment and += / -= """
@@ -760,6 +879,8 @@ def oracle(rng, tier, seed, focus, cases=None):
     f2, stats = sweep(tier, seed)
     fails += f2
     fails += copies(tier, seed)
+    fails += axis_copy_forms(tier, seed)
+    fails += series_share_nothing(tier, seed)
     f3, n3 = unmodelled_operands(tier, seed)
     fails += f3
     stats['unmodelled_operand_calls'] = n3
@@ -775,7 +896,7 @@ def replay(d):
     if d.get('what') == 'sweep':
         fs, _ = sweep('thorough', 0)
     elif d.get('what') == 'copies':
-        fs = copies('quick', 0)
+        fs = copies('quick', 0) + axis_copy_forms('quick', 0) + series_share_nothing('quick', 0)
     elif d.get('what') == 'operands':
         fs = unmodelled_operands('thorough', 0)[0]
     else:
